@@ -25,12 +25,12 @@ Tr == ndJsonDeserialize(IOEnv.VERIF_IN)[1]
 TrSenders == 1..Tr.ncalls
 TrMaxSb == Tr.nsb
 
-VARIABLES l, inq, rxn, ended
-tvars == <<vars, l, inq, rxn, ended>>
+VARIABLES l, inq, rxn, ended, held
+tvars == <<vars, l, inq, rxn, ended, held>>
 Ev == Tr.events[l]
 More == l <= Len(Tr.events)
 
-TInit == TLCSet(1, 0) /\ Init /\ l = 1 /\ inq = <<>> /\ rxn = 0 /\ ended = FALSE
+TInit == TLCSet(1, 0) /\ Init /\ l = 1 /\ inq = <<>> /\ rxn = 0 /\ ended = FALSE /\ held = FALSE
 
 (* Begin + Write of a call, with the system bytes the call really used (the library's allocator is not part of the
    model's claim).  The two steps are taken together at the moment the peer sees the frame: the peer never sends anything
@@ -45,32 +45,44 @@ TBeginWrite(s, b) ==
     /\ sendCnt' = sendCnt + 1 /\ inflight' = inflight + 1
     /\ pc' = [pc EXCEPT ![s] = "written"]
     /\ UNCHANGED <<cur, live, sel, out, handled, nextSb, peerBudget, errCnt, dropCnt>>
-Quiet == UNCHANGED <<l, inq, rxn, ended>>
-TTake(s) == Take(s) /\ Quiet
-TTimeout(s) == Tr.outcomes[s] = "t3" /\ Timeout(s) /\ Quiet
-TCancel(s) == Tr.outcomes[s] = "ctx" /\ Cancel(s) /\ Quiet
-TReleased(s) == Tr.outcomes[s] = "closed" /\ Released(s) /\ Quiet
-TRecv == /\ inq /= <<>> /\ Recv(Head(inq).k, Head(inq).sb) /\ inq' = Tail(inq) /\ UNCHANGED <<l, rxn, ended>>
+Quiet == UNCHANGED <<l, inq, rxn, ended, held>>
+(* Routing a frame commutes with every log event that does not carry the same system bytes, so in-flight frames are routed
+   EAGERLY -- before the next log event is consumed -- unless the behaviour commits to losing them: "held" frames (and everything
+   queued behind them) are never routed and disappear when the generation ends. *)
+MayConsume == inq = <<>> \/ held
+EndStillAhead == ended \/ \E i \in l..Len(Tr.events) : Tr.events[i].d = "end"
+THold == /\ inq /= <<>> /\ ~held /\ cur = 1 /\ EndStillAhead /\ held' = TRUE /\ UNCHANGED <<vars, l, inq, rxn, ended>>
+(* Calls interact only through the registry slot of their own system bytes and the order of in-flight frames, so the ways a
+   wait can end without a reply (T3, cancel, released) are tried just in time: right before the receive goroutine routes a frame
+   with that call's system bytes, or once the whole log has been consumed.  Actions of different calls commute. *)
+Waiting == {t \in TrSenders : pc[t] = "written"}
+FinalTurn(s) == l > Len(Tr.events) /\ inq = <<>> /\ s \in Waiting /\ \A t \in Waiting : s <= t     \* at the very end: one canonical order
+JustInTime(s) == (inq /= <<>> /\ Head(inq).sb = Tr.call_sbi[s]) \/ FinalTurn(s)
+TTake(s) == JustInTime(s) /\ Take(s) /\ Quiet
+TTimeout(s) == Tr.outcomes[s] = "t3" /\ JustInTime(s) /\ Timeout(s) /\ Quiet
+TCancel(s) == Tr.outcomes[s] = "ctx" /\ JustInTime(s) /\ Cancel(s) /\ Quiet
+TReleased(s) == Tr.outcomes[s] = "closed" /\ JustInTime(s) /\ Released(s) /\ Quiet
+TRecv == /\ inq /= <<>> /\ ~held /\ Recv(Head(inq).k, Head(inq).sb) /\ inq' = Tail(inq) /\ UNCHANGED <<l, rxn, ended, held>>
 (* generations: the harness ended generation 1 (peer close / reset, or Close()); the library notices at some later point;
    whatever was still in flight to the dead generation is lost *)
-TEndEpoch == /\ ended /\ EndEpoch /\ inq' = <<>> /\ UNCHANGED <<l, rxn, ended>>
-TNewEpoch == /\ NewEpoch /\ rxn' = 0 /\ UNCHANGED <<l, inq, ended>>
+TEndEpoch == /\ ended /\ EndEpoch /\ inq' = <<>> /\ held' = FALSE /\ UNCHANGED <<l, rxn, ended>>
+TNewEpoch == /\ NewEpoch /\ rxn' = 0 /\ UNCHANGED <<l, inq, ended, held>>
 TReselect == /\ cur = 2 /\ Reselect /\ Quiet
 
-TraceRx == /\ More /\ Ev.d = "rx"
+TraceRx == /\ More /\ Ev.d = "rx" /\ MayConsume
            /\ \E s \in TrSenders : Tr.call_sbi[s] = Ev.sbi /\ TBeginWrite(s, Ev.sbi)
            /\ cur = Ev.gen
-           /\ rxn' = rxn + 1 /\ l' = l + 1 /\ UNCHANGED <<inq, ended>>
+           /\ rxn' = rxn + 1 /\ l' = l + 1 /\ UNCHANGED <<inq, ended, held>>
 (* a frame written on a generation the library has already left (or is leaving) never arrives *)
-TraceTx == /\ More /\ Ev.d = "tx"
+TraceTx == /\ More /\ Ev.d = "tx" /\ MayConsume
            /\ inq' = IF Ev.gen = cur /\ live[cur] THEN Append(inq, [k |-> Ev.k, sb |-> Ev.sbi]) ELSE inq
-           /\ l' = l + 1 /\ UNCHANGED <<vars, rxn, ended>>
-TraceEnd == /\ More /\ Ev.d = "end" /\ ended' = TRUE /\ l' = l + 1 /\ UNCHANGED <<vars, inq, rxn>>
-TraceNew == /\ More /\ Ev.d = "new" /\ cur = 2 /\ live[2] /\ sel           \* the peer has seen the new generation selected
-            /\ l' = l + 1 /\ UNCHANGED <<vars, inq, rxn, ended>>
+           /\ l' = l + 1 /\ UNCHANGED <<vars, rxn, ended, held>>
+TraceEnd == /\ More /\ Ev.d = "end" /\ MayConsume /\ ended' = TRUE /\ l' = l + 1 /\ UNCHANGED <<vars, inq, rxn, held>>
+TraceNew == /\ More /\ Ev.d = "new" /\ MayConsume /\ cur = 2 /\ live[2] /\ sel           \* the peer has seen the new generation selected
+            /\ l' = l + 1 /\ UNCHANGED <<vars, inq, rxn, ended, held>>
 
 TNext == \/ \E s \in TrSenders : TTake(s) \/ TTimeout(s) \/ TCancel(s) \/ TReleased(s)
-         \/ TRecv \/ TEndEpoch \/ TNewEpoch \/ TReselect \/ TraceRx \/ TraceTx \/ TraceEnd \/ TraceNew
+         \/ TRecv \/ THold \/ TEndEpoch \/ TNewEpoch \/ TReselect \/ TraceRx \/ TraceTx \/ TraceEnd \/ TraceNew
 TSpec == TInit /\ [][TNext]_tvars
 
 OutKind(o) == IF o[1] = "-" THEN "pending" ELSE o[1]
@@ -80,5 +92,12 @@ Accepted ==
                             /\ (Tr.outcomes[s] \in {"reply", "reject"} => out[s][2] = Tr.call_sbi[s])
     /\ [i \in 1..Len(handled) |-> handled[i].sb] = Tr.delivered
 NotAccepted == ~Accepted
+(* dead ends are cut as soon as they are certain: a reply sits in the slot of a call that did not end with a reply (only Take
+   empties a slot), or the handlers have received something that is not the next recorded delivery *)
+Doomed == \E s \in TrSenders : /\ pc[s] = "written" /\ Tr.outcomes[s] \notin {"reply", "reject"}
+                                /\ reg[call[s].e][call[s].sb].kind \in {"secondary", "reject"}
+HandledIsPrefix == /\ Len(handled) <= Len(Tr.delivered)
+                   /\ \A i \in 1..Len(handled) : handled[i].sb = Tr.delivered[i]
+Prune == ~Doomed /\ HandledIsPrefix
 HighWater == IF l > TLCGet(1) THEN TLCSet(1, l) /\ PrintT(<<"HW", l - 1, Len(Tr.events)>>) ELSE TRUE
 =============================================================================
